@@ -17,13 +17,14 @@ let answers_of_script (s : string) : M.answer list =
   L.init (S.length s) (fun i -> match s.[i] with
     | 'o' -> M.OkElem
     | 'P' -> M.PanicElem
-    | _ -> M.ErrElem)
+    | 'E' | 'I' | 'U' | 'W' -> M.ErrElem      (* element errors of different kinds: one answer of the machine *)
+    | c -> failwith (Printf.sprintf "arr: script character %C" c))
 
 let variant_of (s : string) : M.variant =
   match s with
-  | "as-written" -> { M.incr_first = false; M.reset_first = true }
-  | "incr-first" -> { M.incr_first = true; M.reset_first = true }
-  | "no-reset" -> { M.incr_first = false; M.reset_first = false }
+  | "as-written" -> M.as_written                  (* the variant the C15 theorems are about *)
+  | "incr-first" -> M.bug_incr_before_write
+  | "no-reset" -> M.bug_no_reset
   | "both-bugs" -> { M.incr_first = true; M.reset_first = false }
   | _ -> failwith "arr: variant"
 
@@ -98,14 +99,14 @@ let nest (outer : int) (inner : int) (script : M.answer list) : string =
 
 let () =
   reg_untyped "arr" (fun args -> match args with
-    | [n; script] -> show false (M.deserialize (variant_of "as-written") (nat_of_int (int_of_string n)) (answers_of_script script))
+    | [n; script] -> show false (M.deserialize (variant_of "as-written") (nat_of_int (small_nat_of_string n)) (answers_of_script script))
     | _ -> failwith "arr: args");
   reg_untyped "arrv" (fun args -> match args with
-    | [v; n; script] -> show false (M.deserialize (variant_of v) (nat_of_int (int_of_string n)) (answers_of_script script))
+    | [v; n; script] -> show false (M.deserialize (variant_of v) (nat_of_int (small_nat_of_string n)) (answers_of_script script))
     | _ -> failwith "arrv: args");
   reg_untyped "arrfull" (fun args -> match args with
-    | [v; n; script] -> show true (M.deserialize (variant_of v) (nat_of_int (int_of_string n)) (answers_of_script script))
+    | [v; n; script] -> show true (M.deserialize (variant_of v) (nat_of_int (small_nat_of_string n)) (answers_of_script script))
     | _ -> failwith "arrfull: args");
   reg_untyped "arrnest" (fun args -> match args with
-    | [outer; inner; script] -> nest (int_of_string outer) (int_of_string inner) (answers_of_script script)
+    | [outer; inner; script] -> nest (small_nat_of_string outer) (small_nat_of_string inner) (answers_of_script script)
     | _ -> failwith "arrnest: args")
